@@ -217,7 +217,7 @@ class DetectAndLoad(Unit):
 def replay_load(model, fkind, entry):
     import simfile, tempfile, os
     from contracts import oracles as OR
-    content = model.get("content") if entry != "loads" else model.get("string")
+    content = model.get("content") if entry not in ("loads", "ctor-string") else model.get("string")
     strict = model.get("strict", True)
     name = model.get("name")
     params = [list(p) for p in (model.get("params") or []) if p]
@@ -233,16 +233,26 @@ def replay_load(model, fkind, entry):
                 d = tempfile.mkdtemp(prefix="pyvc-replay-")
                 nm = name if isinstance(name, str) and name and "/" not in name and "\x00" not in name else "chart.txt"
                 p = os.path.join(d, nm)
-                with open(p, "w", encoding="utf-8") as fh:
-                    fh.write(text)
                 try:
+                    with open(p, "w", encoding="utf-8") as fh:
+                        fh.write(text)
                     with open(p, "r", encoding="utf-8") as fh:
                         got = simfile.load(fh, strict=st)
                 finally:
-                    os.remove(p)
-                    os.rmdir(d)
+                    import shutil
+                    shutil.rmtree(d, ignore_errors=True)
                 low = nm.lower()
                 exp_ssc = True if low.endswith(".ssc") else False if low.endswith(".sm") else None
+            elif entry in ("ctor-string", "ctor-file"):
+                from msdparser import parse_msd as _pm
+                try:
+                    first = next(iter(_pm(string=text, ignore_stray_text=not st)), None)
+                except Exception:
+                    first = None
+                cls = simfile.SSCSimfile if first is not None and first.key.upper() == "VERSION" else simfile.SMSimfile
+                exp_ssc = cls is simfile.SSCSimfile
+                got = cls(string=text, strict=st) if entry == "ctor-string" else cls(file=io.StringIO(text), strict=st)
+                got.charts, list(got.items())       # the object must be usable
             elif entry == "loads":
                 got = simfile.loads(text, strict=st)
             elif fkind == "lines":
@@ -340,6 +350,7 @@ def witness_search(tier, seed):
              "#VERSION:0.83;#DISPLAYBPM:1:2;#NOTEDATA:;#DISPLAYBPM:90:180;#ATTACKS:a:b:c;#attacks;#NOTES:0000;#NOTEDATA:;#ATTACKS:x:y;"]
     for text, stray, strict in itertools.product(texts, ("", "junk\n"), (True, False)):
         for fk, en, nm in (("StringIO", "load", None), ("lines", "load", None), ("string", "loads", None),
+                           ("string", "ctor-string", None), ("StringIO", "ctor-file", None),
                            ("TextIOWrapper", "load", "a.txt"), ("TextIOWrapper", "load", "b.SM"), ("TextIOWrapper", "load", "c.ssc"),
                            ("TextIOWrapper", "load", "d.sm.bak"), ("TextIOWrapper", "load", "ssc")):
             r = replay_load(dict(content=stray + text, string=stray + text, strict=strict, name=nm), fk, en)
